@@ -204,7 +204,10 @@ func entryPoints(expr *Expr, consumer func(ref *Expr)) bool {
 	case Choice:
 		ret := len(expr.Sub) > 0
 		for _, c := range expr.Sub {
-			ret = ret && entryPoints(c, consumer)
+			// Note: all alternatives have to be visited to collect their entry points.
+			if !entryPoints(c, consumer) {
+				ret = false
+			}
 		}
 		return ret
 	case Sequence:
